@@ -482,15 +482,15 @@ def run(chk):
                     "ticked message by message through the real state machine in Open (psmdrv), and the wedge test (garbage, then "
                     "well-formed data); threads and sockets themselves are C04/C08"]
     chk.assumptions += ["heap growth is bounded through the proven object-count bound (len/8 AVPs, len/20 messages); actual memory is not measured"]
-    n_seeds = 60 if chk.tier == "quick" else 1500
+    n_seeds = 60 if chk.tier == "quick" else 500
     uniq = explore(chk, g, n_seeds, 150, "sweep", sweep=True)
     # live part, receive worker: one real iteration of recv_message_from_queue per byte string (typed-data sweep,
     # seeds and a sample of the mutations), observing thread survival, lock state and what was enqueued
     sample = [c for c in uniq if c[0] in ("typed-data", "seed", "garbage", "zeros")]
     rest = [c for c in uniq if c[0] not in ("typed-data", "seed", "garbage", "zeros")]
     rng.shuffle(rest)
-    explore_worker(chk, sample + rest[: (1500 if chk.tier == "quick" else 100000)], "sweep")
-    explore_node(chk, sample + rest[: (600 if chk.tier == "quick" else 30000)], rng, "sweep")
+    explore_worker(chk, sample + rest[: (1500 if chk.tier == "quick" else 25000)], "sweep")
+    explore_node(chk, sample + rest[: (600 if chk.tier == "quick" else 10000)], rng, "sweep")
 
     def search():
         explore(chk, g, 3 * n_seeds, 200, "search")
